@@ -131,6 +131,12 @@ func newWorker(prog *ssa.Program, opts Options, harnessPkgs []string) (*worker, 
 	m.WasmFiles = opts.WasmFiles
 	for _, name := range opts.Transparent {
 		delete(m.opaque, name)
+		// the concrete-only shortcuts of that package give way to its real code
+		for k := range m.intr {
+			if strings.HasPrefix(k, name+".") && !strings.HasSuffix(k, ".cloneString") {
+				delete(m.intr, k)
+			}
+		}
 	}
 	for _, name := range opts.StubZero {
 		name := name
